@@ -1,6 +1,13 @@
-"""C03 — timestamps <-> epoch seconds (tracklib/core/obs_time.py)."""
-import calendar, datetime
-from engine import Prop
+"""C03 — timestamps <-> epoch seconds (tracklib/core/obs_time.py).
+
+Two models are driven: the integer model (commands read/abs/cmp/add; what T1-T6 are about) and the generic model
+of the float path instantiated at IEEE doubles (readf/absf/rtf/addf/cmpf/subf; what T7-T14 are about in exact
+arithmetic). The correspondence with the second one is exact (fields and bit patterns); the first one is compared
+up to the documented "one millisecond low" of the float code. The oracle (`spec`) uses only the calendar of the
+standard library and exact rationals."""
+import calendar, datetime, math
+from fractions import Fraction
+from engine import Prop, fbits, bitsf
 
 EPOCH = datetime.datetime(1970, 1, 1)
 
@@ -13,21 +20,41 @@ def mdays(y, m):
     return [31, 29 if leap(y) else 28, 31, 30, 31, 30, 31, 31, 30, 31, 30, 31][m - 1]
 
 
+def integral(v):
+    return (isinstance(v, int) and not isinstance(v, bool)) or (isinstance(v, float) and v == math.floor(v) and abs(v) < 2 ** 53)
+
+
 def wellformed(f):
-    y, mo, d, h, mi, s, ms = f
+    if not all(integral(v) for v in f):
+        return False
+    y, mo, d, h, mi, s, ms = map(int, f)
     return (1 <= mo <= 12 and 1 <= d <= mdays(y, mo) and 0 <= h <= 23 and 0 <= mi <= 59
             and 0 <= s <= 59 and 0 <= ms <= 999)
 
 
 def oracle_ms(f):
     """independent epoch milliseconds of a well-formed field list (proleptic Gregorian, no leap seconds)"""
-    y, mo, d, h, mi, s, ms = f
+    y, mo, d, h, mi, s, ms = map(int, f)
     return calendar.timegm((y, mo, d, h, mi, s)) * 1000 + ms
 
 
 def oracle_fields(ms_total):
     dt = EPOCH + datetime.timedelta(milliseconds=ms_total)
     return [dt.year, dt.month, dt.day, dt.hour, dt.minute, dt.second, dt.microsecond // 1000]
+
+
+def hexs(s):
+    """string -> protocol token of the C13 driver (lower-case hex of the character codes)"""
+    return "".join("%02x" % ord(c) for c in s) if s else "_"
+
+
+def unhexs(tok):
+    return "" if tok == "_" else bytes.fromhex(tok).decode("latin-1")
+
+
+DEFAULT_FMT = "2D/2M/4Y 2h:2m:2s"
+YEAR_2400_END = 13569465600 + 366 * 86400  # first second of 2401
+MS = Fraction(1, 1000)
 
 
 class P(Prop):
@@ -44,12 +71,38 @@ class P(Prop):
         ("TracklibVerif.Props.C03", "TV.C03.le_iff", "<= (defined as not >) agrees with <= on epoch milliseconds"),
         ("TracklibVerif.Props.C03", "TV.C03.ge_iff", ">= (defined as not <) agrees with >= on epoch milliseconds"),
         ("TracklibVerif.Props.C03", "TV.C03.addSec_spec", "adding n seconds moves the instant by exactly n seconds and stays well-formed"),
+        ("TracklibVerif.Props.C03", "TV.C03.readUnixG_eq", "float path, exact arithmetic: readUnixTime(x), run operation for operation, = <integer reader on floor x, floor((x - floor x)*1000) ms> for every x >= 0 (the year loop ends)"),
+        ("TracklibVerif.Props.C03", "TV.C03.readUnixG_wellFormed", "the stamp read from any scalar x >= 0 is well formed, millisecond 0..999 included"),
+        ("TracklibVerif.Props.C03", "TV.C03.readUnixG_within_ms", "0 <= x - toAbsTime(readUnixTime(x)) < 1/1000: same instant to within one millisecond"),
+        ("TracklibVerif.Props.C03", "TV.C03.readUnixG_spec", "the three previous statements as one statement about the mirrored code"),
+        ("TracklibVerif.Props.C03", "TV.C03.readUnixG_toAbsG", "readUnixTime(toAbsTime(s)) = s for every well-formed stamp, milliseconds included, in exact arithmetic"),
+        ("TracklibVerif.Props.C03", "TV.C03.addSecG_spec", "addSec(a) for any scalar a (fractional, negative) not leading before 1970: well formed, within 1 ms of toAbsTime()+a"),
+        ("TracklibVerif.Props.C03", "TV.C03.addMinG_spec", "the same for addMin (a*60)"),
+        ("TracklibVerif.Props.C03", "TV.C03.addHourG_spec", "the same for addHour (a*3600)"),
+        ("TracklibVerif.Props.C03", "TV.C03.addDayG_spec", "the same for addDay (a*86400)"),
+        ("TracklibVerif.Props.C03", "TV.C03.addSecG_whole", "adding a whole number k of seconds, negative included, gives exactly the integer model's stamp of toAbsMs + 1000k"),
+        ("TracklibVerif.Props.C03", "TV.C03.cmp_iff_seconds", "< > == <= >= != on well-formed stamps agree with the order of the toAbsTime() scalars"),
+        ("TracklibVerif.Props.C03", "TV.C03.sub_spec", "t1 - t2 is the difference of the epoch milliseconds / 1000 and its sign is the comparison"),
+        ("TracklibVerif.Props.C03", "TV.C03.cmpZ_toZ", "the comparison cascades on float-path stamps are those of the integer model"),
+        ("TracklibVerif.Props.C03", "TV.C03.readUnixG_monotone", "0 <= x <= y implies readUnixTime(x) <= readUnixTime(y)"),
+        ("TracklibVerif.Props.C03", "TV.C03.default_is_epoch", "ObsTime() is the stamp of instant 0"),
     ]
     partial = []
-    open_statements = ["float truncation of the sub-second part (ms = int(frac*1000)) is not modelled: 'within one millisecond' is sampled by the transfer check"]
-    modelled = "ObsTime.readUnixTime (year loop, month loop, truncating divisions), toAbsTime, __eq__/__ne__/__lt__/__gt__/__le__/__ge__, addSec/addMin/addHour/addDay; integer milliseconds instead of float seconds"
+    open_statements = ["IEEE rounding is outside the theorems (ordered field, exact int()): the two roundings of toAbsTime() (ms/1000.0 and the sum) make a stamp with a non-zero "
+                       "millisecond read back one millisecond low (57 -> 56), and float(toAbsTime()+nb) is rounded to the ~2e-7..2e-6 s grid of epoch-scale doubles; both are within the "
+                       "property's millisecond and are covered by the bit-exact correspondence of the same definitions instantiated at Float, not by a theorem"]
+    modelled = ("tracklib/core/obs_time.py: ObsTime.readUnixTime on a float argument, operation for operation (readUnixG: year loop on `elapsed - sec` with the integer accumulator, "
+                "month loop, int(e/86400), int(e/3600), int(e/60), int(e), ms = int(frac*1000)) and on integers (readUnixSec/readUnixMs); toAbsTime (integer `seconds`, then "
+                "float(seconds) + ms/1000.0); addSec/addMin/addHour/addDay with int, fractional and negative amounts; __sub__; __eq__/__ne__/__lt__/__gt__/__le__/__ge__; "
+                "ObsTime() defaults. The generic definitions are instantiated at Float in the driver (bit-exact) and at an ordered field in the theorems. "
+                "The string constructor / readTimestamp / __str__ are the C13 model (driver command C13.time), used here for the `ctor` stream")
     rule = ("days enumerated from 1970-01-01 (all days to 2099 in thorough; the boundary days of every year in quick) x 4 intra-day instants; "
-            "whole boundary days second by second; century years 2100..2400; ordered pairs one unit apart in each field; offsets crossing day/month/year. "
+            "whole boundary days second by second; century years 2100..2400; ordered pairs one unit apart in each field; offsets crossing day/month/year; "
+            "float instants up to year 2400 by class (uniform fraction, k/1000.0, fraction in [0.999,1) and [0.9995,1), 1-2^-j and 2^-j, one to a few ulps below/above a second, "
+            "minute, hour, midnight, month or year boundary, interpolated t1+(t2-t1)*w, whole floats, below one day, negative = correspondence only); pairs of float instants "
+            "(equal, adjacent doubles, half a millisecond / a millisecond / a second apart, unrelated) compared with all six operators and subtracted; addSec/Min/Hour/Day with "
+            "fractional, negative and int amounts; ObsTime(), ObsTime(str), readTimestamp, copy; sequences of 2-5 conversions evaluated one after the other in one case "
+            "(same month and day in several years, same year in several months, unrelated) so that state kept between calls shows as a self-contained input. "
             "non-trivial = not (1 January 00:00:00.000 of 1970), i.e. every case exercises at least one loop iteration or comparison")
 
     def setup(self):
@@ -61,19 +114,117 @@ class P(Prop):
         if tier == "thorough":
             return ["every calendar day 1970-01-01..2099-12-31 x {00:00:00.000, 12:00:00.000, 23:59:59.999, random ms}",
                     "every second within 30 min of both midnights of 28 Feb, 29 Feb/1 Mar, 31 Dec, 1 Jan for every year 1970..2099; every second of those four days for 1970, 1971, 1972, 1999, 2000, 2099 and two seeded years",
-                    "boundary days of 2100, 2200, 2300, 2400"]
-        return ["boundary days (1 Jan, 28 Feb, 29 Feb or 1 Mar, 31 Dec) of every year 1970..2099 and of 2100, 2200, 2300, 2400 x 4 instants"]
+                    "boundary days of 2100, 2200, 2300, 2400",
+                    "the doubles 1, 2 and 3 ulps below and 1 ulp above the first second of every year 1971..2100 and of every month of 1972, 1999, 2000, 2100"]
+        return ["boundary days (1 Jan, 28 Feb, 29 Feb or 1 Mar, 31 Dec) of every year 1970..2099 and of 2100, 2200, 2300, 2400 x 4 instants",
+                "the doubles 1 ulp below and 1 ulp above the first second of every year 1971..2100"]
 
     def boundary_days(self, y):
         return [(y, 1, 1), (y, 2, 28), (y, 2, 29) if leap(y) else (y, 3, 1), (y, 12, 31), (y, 12, 30), (y, 3, 1)]
 
+    # -- float instants ------------------------------------------------------------------
+    FLOAT_CLASSES = ["uniform", "milli", "last_ms", "last_half_ms", "pow2", "below", "above", "interp", "whole", "small", "neg"]
+
+    def rand_second(self, rng):
+        """a whole second: anywhere up to the end of 2400, or on/next to a minute, hour, day, month or year boundary"""
+        c = rng.randrange(6)
+        if c == 0:
+            return rng.randrange(0, YEAR_2400_END)
+        if c == 1:
+            return rng.randrange(0, 4102444800)  # 1970..2099
+        y = rng.choice([rng.randrange(1970, 2100), rng.choice([1970, 1971, 1972, 1999, 2000, 2001, 2100, 2400])])
+        m = rng.choice([1, 2, 3, 12, rng.randrange(1, 13)])
+        d = rng.choice([1, mdays(y, m), rng.randrange(1, mdays(y, m) + 1)])
+        base = calendar.timegm((y, m, d, 0, 0, 0))
+        if c == 2:
+            return max(0, base + rng.choice([-1, 0, 1, 86399, 86400]))
+        if c == 3:
+            return base + rng.randrange(24) * 3600 + rng.choice([0, 3599])
+        if c == 4:
+            return base + rng.randrange(1440) * 60 + rng.choice([0, 59])
+        return base + rng.randrange(86400)
+
+    def rand_float(self, rng, cls=None):
+        """one double of the given class (see `rule`); every class is a legitimate argument of readUnixTime except `neg`"""
+        cls = cls or rng.choice(self.FLOAT_CLASSES[:-1])
+        n = self.rand_second(rng)
+        if cls == "uniform":
+            return n + rng.random()
+        if cls == "milli":
+            return n + rng.randrange(1000) / 1000.0
+        if cls == "last_ms":
+            return n + 0.999 + rng.random() * 0.001
+        if cls == "last_half_ms":
+            return n + rng.choice([0.9995, 0.9996, 0.99975, 0.9999, 0.99999, 0.9995 + rng.random() * 0.0005])
+        if cls == "pow2":
+            j = rng.randrange(1, 31)
+            return n + (1 - 2.0 ** -j if rng.random() < 0.5 else 2.0 ** -j)
+        if cls == "below":
+            x = float(max(n, 1))
+            for _ in range(rng.choice([1, 1, 1, 2, 3, 7])):
+                x = math.nextafter(x, 0.0)
+            return x
+        if cls == "above":
+            x = float(n)
+            for _ in range(rng.choice([1, 1, 2, 5])):
+                x = math.nextafter(x, math.inf)
+            return x
+        if cls == "interp":
+            t1 = float(n) + rng.choice([0.0, rng.randrange(1000) / 1000.0])
+            t2 = t1 + rng.choice([1.0, 0.5, 60.0, 3600.0, 86400.0, rng.random() * 1000])
+            return t1 + (t2 - t1) * rng.random()
+        if cls == "whole":
+            return float(n)
+        if cls == "small":
+            return rng.choice([0.0, 5e-324, 2.0 ** -30, 0.0005, 0.001, 0.9995, 0.9999999, 1 - 2.0 ** -53,
+                               rng.random(), rng.random() * 86400, 86399.9996, math.nextafter(86400.0, 0.0)])
+        if cls == "neg":
+            return -rng.choice([rng.random(), rng.random() * 86400, 1.0, 0.5, 1e-9])
+        raise ValueError(cls)
+
+    def rand_amount(self, rng, unit):
+        """(amount, passed as int?) for addSec/addMin/addHour/addDay: fractional, negative, whole"""
+        c = rng.randrange(8)
+        scale = {"sec": 100000, "min": 2000, "hour": 50, "day": 800}[unit]
+        if c == 0:
+            return rng.random() * scale, False
+        if c == 1:
+            return -rng.random() * scale, False
+        if c == 2:
+            return float(rng.choice([-1, 1]) * rng.randrange(0, scale)), True
+        if c == 3:
+            return rng.choice([0.9995, 0.9997, 0.99999, 0.0005, 0.001, 0.0004, -0.0005, -0.001, 1 - 2.0 ** -20]), False
+        if c == 4:
+            return rng.choice([-1, 1]) * rng.randrange(0, 60000) / 1000.0, False
+        if c == 5:
+            return rng.choice([0.5, 0.25, -0.25, 1 / 3.0, -1 / 3.0, 1.5, -1.5, 0.1, -0.1]), False
+        if c == 6:
+            return float(rng.choice([-1, -59, -60, -61, -3600, -86400, -86401, -365, -366, -31, -28])), rng.random() < 0.5
+        return rng.choice([1, 59, 60, 3599, 86399, 86400]) + rng.choice([0.9996, 0.5, 0.0005]), False
+
     def cases(self, rng, tier):
         out = []
         years = list(range(1970, 2100))
+        quick = tier == "quick"
 
         def instants(y, m, d):
             return [(0, 0, 0, 0), (12, 0, 0, 0), (23, 59, 59, 999),
                     (rng.randrange(24), rng.randrange(60), rng.randrange(60), rng.randrange(1000))]
+        # sequences of conversions on one interpreter state (a result must not depend on the calls made before):
+        # the same month/day in several years, the same year in several months, unrelated stamps. First in the list,
+        # so that a failure that needs an earlier call is reported as a self-contained case.
+        for _ in range(300 if quick else 6000):
+            c = rng.randrange(3)
+            n = rng.randrange(2, 6)
+            if c == 0:
+                m, d = rng.randrange(1, 13), rng.randrange(1, 29)
+                fs = [[rng.choice(years + [2100, 2400]), m, d] for _ in range(n)]
+            elif c == 1:
+                y, d = rng.choice(years), rng.randrange(1, 29)
+                fs = [[y, rng.randrange(1, 13), d] for _ in range(n)]
+            else:
+                fs = [self.rand_stamp(rng)[:3] for _ in range(n)]
+            out.append({"kind": "seq", "fs": [f + [rng.randrange(24), rng.randrange(60), rng.randrange(60), rng.choice([0, 0, rng.randrange(1000)])] for f in fs]})
         if tier == "thorough":
             days = [(y, m, d) for y in years for m in range(1, 13) for d in range(1, mdays(y, m) + 1)]
         else:
@@ -104,17 +255,17 @@ class P(Prop):
                 else:
                     out.append({"kind": "secs", "start": s0, "n": 600})
                     out.append({"kind": "secs", "start": s0 + 86400 - 600, "n": 600})
-        for _ in range(300 if tier == "quick" else 5000):
+        for _ in range(300 if quick else 5000):
             out.append({"kind": "secs", "start": rng.randrange(0, 13569465600), "n": 1})  # up to year 2400
         # ordered pairs one unit apart in each field, and random pairs
-        npairs = 1500 if tier == "quick" else 40000
+        npairs = 1500 if quick else 40000
         for _ in range(npairs):
             a = self.rand_stamp(rng)
             out.append({"kind": "cmp", "a": a, "b": self.neighbour(a, rng)})
         for _ in range(npairs // 3):
             out.append({"kind": "cmp", "a": self.rand_stamp(rng), "b": self.rand_stamp(rng)})
         # offsets
-        for _ in range(1500 if tier == "quick" else 40000):
+        for _ in range(1500 if quick else 40000):
             a = self.rand_stamp(rng)
             a[6] = 0 if rng.random() < 0.7 else a[6]
             unit = rng.choice(["sec", "min", "hour", "day"])
@@ -122,7 +273,66 @@ class P(Prop):
             if unit == "day":
                 nb = rng.choice([0, 1, 28, 29, 30, 31, 365, 366, rng.randrange(0, 800)])
             out.append({"kind": "add", "a": a, "unit": unit, "nb": nb})
+
+        # ---- the float path -------------------------------------------------------------
+        # enumerated: the doubles next to the first second of every year (and of every month of a few years)
+        bounds = [calendar.timegm((y, 1, 1, 0, 0, 0)) for y in range(1971, 2101)]
+        if not quick:
+            bounds += [calendar.timegm((y, m, 1, 0, 0, 0)) for y in (1972, 1999, 2000, 2100) for m in range(2, 13)]
+        xs = []
+        for b in bounds:
+            x = float(b)
+            for _ in range(1 if quick else 3):
+                x = math.nextafter(x, 0.0)
+                xs.append(x)
+            xs.append(math.nextafter(float(b), math.inf))
+        for i in range(0, len(xs), 20):
+            out.append({"kind": "rdf", "cls": "year_edge", "x": [fbits(x) for x in xs[i:i + 20]]})
+        # sampled, class by class
+        for cls in self.FLOAT_CLASSES:
+            for _ in range(150 if quick else 1500):
+                out.append({"kind": "rdf", "cls": cls, "x": [fbits(self.rand_float(rng, cls)) for _ in range(20)]})
+        # pairs of float instants: comparison operators and `-` on the stamps read from them
+        for _ in range(10000 if quick else 100000):
+            x = self.rand_float(rng)
+            c = rng.randrange(9)
+            if c == 0:
+                y = x
+            elif c == 1:
+                y = math.nextafter(x, rng.choice([0.0, math.inf]))
+            elif c == 2:
+                y = x + rng.choice([-1, 1]) * 0.0005
+            elif c == 3:
+                y = x + rng.choice([-1, 1]) * 0.001
+            elif c == 4:
+                y = float(math.floor(x) + rng.choice([0, 1]))
+            elif c == 5:
+                y = x + rng.choice([-1, 1]) * rng.choice([1.0, 60.0, 3600.0, 86400.0])
+            elif c == 6:
+                y = x + (rng.random() - 0.5) * 0.004
+            else:
+                y = self.rand_float(rng)
+            if y < 0:
+                y = x
+            out.append({"kind": "cmpf", "x": fbits(x), "y": fbits(y)})
+        # addSec/addMin/addHour/addDay with fractional, negative and int amounts
+        for _ in range(10000 if quick else 100000):
+            a = self.rand_stamp(rng)
+            a[6] = 0 if rng.random() < 0.6 else a[6]
+            unit = rng.choice(["sec", "sec", "min", "hour", "day"])
+            nb, as_int = self.rand_amount(rng, unit)
+            out.append({"kind": "addf", "a": a, "unit": unit, "nb": fbits(nb), "int": bool(as_int)})
+        # the other ways of building a stamp: ObsTime(), ObsTime(str) / readTimestamp with the default read format, copy
+        out.append({"kind": "ctor", "f": [1970, 1, 1, 0, 0, 0, 0]})
+        for _ in range(200 if quick else 4000):
+            f = self.rand_stamp(rng)
+            f[6] = 0
+            out.append({"kind": "ctor", "f": f})
         return out
+
+    def search_cases(self, rng):
+        # the quick generator with another seed is enough for the failing-input search (thorough is 20x larger)
+        return self.cases(rng, "quick")
 
     def rand_stamp(self, rng):
         y = rng.choice([rng.randrange(1970, 2100), rng.choice([1970, 1972, 1999, 2000, 2001, 2100, 2400])])
@@ -150,8 +360,13 @@ class P(Prop):
             t["daytype"] = ("jan1" if f[1:3] == [1, 1] else "dec31" if f[1:3] == [12, 31] else
                             "feb29" if f[1:3] == [2, 29] else "feb28" if f[1:3] == [2, 28] else "other")
             t["leap"] = leap(f[0])
-        if case["kind"] == "add":
+        if case["kind"] in ("add", "addf"):
             t["unit"] = case["unit"]
+        if case["kind"] == "rdf":
+            t["float_class"] = case.get("cls", "?")
+        if case["kind"] == "addf":
+            nb = bitsf(case["nb"])
+            t["amount"] = ("int " if case.get("int") else "") + ("negative" if nb < 0 else "non-negative") + ("" if nb == int(nb) else " fractional")
         return t
 
     def nontrivial(self, case):
@@ -164,26 +379,68 @@ class P(Prop):
     def fields(self, t):
         return [t.year, t.month, t.day, t.hour, t.min, t.sec, t.ms]
 
+    def fa(self, t):
+        """fields of a stamp and the bit pattern of its toAbsTime()"""
+        return {"f": self.fields(t), "abs": fbits(t.toAbsTime())}
+
+    def amount(self, case):
+        nb = bitsf(case["nb"])
+        return int(nb) if case.get("int") else nb
+
     def impl(self, case):
         k = case["kind"]
         if k == "day":
             t = self.mk(case["f"])
             a = t.toAbsTime()
             back = self.T.readUnixTime(a)
-            return {"abs_ms": round(a * 1000), "back": self.fields(back)}
+            return {"abs_ms": round(a * 1000), "back": self.fields(back), "abs": fbits(a), "back_abs": fbits(back.toAbsTime())}
         if k == "secs":
             rows = []
             for s in range(case["start"], case["start"] + case["n"]):
                 t = self.T.readUnixTime(s)
                 rows.append(self.fields(t) + [round(t.toAbsTime() * 1000)])
             return {"rows": rows}
+        if k == "seq":
+            # every sequence starts from the conversions of the epoch, as a fresh interpreter's first calls would be:
+            # whatever the calls of earlier cases left behind is overwritten as far as a call can do it
+            self.T.readUnixTime(self.mk([1970, 1, 1, 0, 0, 0, 0]).toAbsTime())
+            rows = []
+            for f in case["fs"]:
+                a = self.mk(f).toAbsTime()
+                rows.append({"abs": fbits(a), "back": self.fa(self.T.readUnixTime(a))})
+            return {"rows": rows}
         if k == "cmp":
             a, b = self.mk(case["a"]), self.mk(case["b"])
-            return {"ops": [int(a < b), int(a > b), int(a == b), int(a <= b), int(a >= b), int(a != b)]}
+            return {"ops": [int(a < b), int(a > b), int(a == b), int(a <= b), int(a >= b), int(a != b)], "sub": fbits(a - b)}
         if k == "add":
             a = self.mk(case["a"])
             r = {"sec": a.addSec, "min": a.addMin, "hour": a.addHour, "day": a.addDay}[case["unit"]](case["nb"])
-            return {"res": self.fields(r)}
+            return {"res": self.fields(r), "abs": fbits(r.toAbsTime())}
+        if k == "rdf":
+            return {"rows": [self.fa(self.T.readUnixTime(bitsf(x))) for x in case["x"]]}
+        if k == "cmpf":
+            a, b = self.T.readUnixTime(bitsf(case["x"])), self.T.readUnixTime(bitsf(case["y"]))
+            return {"a": self.fa(a), "b": self.fa(b),
+                    "ops": [int(a < b), int(a > b), int(a == b), int(a <= b), int(a >= b), int(a != b)], "sub": fbits(a - b)}
+        if k == "addf":
+            a = self.mk(case["a"])
+            r = {"sec": a.addSec, "min": a.addMin, "hour": a.addHour, "day": a.addDay}[case["unit"]](self.amount(case))
+            return {"res": self.fa(r), "self": self.fields(a)}
+        if k == "ctor":
+            T = self.T
+            pf, rf = T.getPrintFormat(), T.getReadFormat()
+            T.setPrintFormat(DEFAULT_FMT); T.setReadFormat(DEFAULT_FMT)
+            try:
+                t = self.mk(case["f"])
+                s = str(t)
+                t2, t3, cp, d = T(s), T.readTimestamp(s), t.copy(), T()
+                out = {"str": s, "ctor": self.fa(t2), "read": self.fields(t3), "default": self.fa(d),
+                       "copy": self.fields(cp), "copy_eq": [int(cp == t), int(cp != t), int(cp is t)]}
+                cp.sec = (cp.sec + 1) % 60   # the copy is an independent object
+                out["orig_after"] = self.fields(t)
+                return out
+            finally:
+                T.setPrintFormat(pf); T.setReadFormat(rf)
         raise ValueError(k)
 
     # ---------------------------------------------------------------- model
@@ -194,34 +451,76 @@ class P(Prop):
         if k == "day":
             f = case["f"]
             ms = oracle_ms(f)  # only used to address the `read` request; `abs` is computed by the model
-            return ["C03.abs " + " ".join(map(str, f)), "C03.read %d" % ms]
+            return ["C03.abs " + " ".join(map(str, f)), "C03.read %d" % ms, "C03.rtf " + " ".join(map(str, f))]
         if k == "secs":
             out = []
             for s in range(case["start"], case["start"] + case["n"]):
                 out.append("C03.read %d" % (s * 1000))
             return out
+        if k == "seq":
+            return ["C03.rtf " + " ".join(map(str, f)) for f in case["fs"]]
         if k == "cmp":
-            return ["C03.cmp " + " ".join(map(str, case["a"] + case["b"]))]
+            ab = " ".join(map(str, case["a"] + case["b"]))
+            return ["C03.cmp " + ab, "C03.subf " + ab]
         if k == "add":
-            return ["C03.add " + " ".join(map(str, case["a"])) + " %d" % (case["nb"] * self.MULT[case["unit"]])]
+            return ["C03.add " + " ".join(map(str, case["a"])) + " %d" % (case["nb"] * self.MULT[case["unit"]]),
+                    "C03.addf " + " ".join(map(str, case["a"])) + " %s %s" % (case["unit"], fbits(float(case["nb"])))]
+        if k == "rdf":
+            return ["C03.readf %s" % x for x in case["x"]]
+        if k == "cmpf":
+            return ["C03.readf %s" % case["x"], "C03.readf %s" % case["y"], "C03.cmpf %s %s" % (case["x"], case["y"])]
+        if k == "addf":
+            return ["C03.addf " + " ".join(map(str, case["a"])) + " %s %s" % (case["unit"], case["nb"])]
+        if k == "ctor":
+            return ["C13.time %s %s %s" % (hexs(DEFAULT_FMT), hexs(DEFAULT_FMT), " ".join(map(str, case["f"]))), "C03.default",
+                    "C03.absf " + " ".join(map(str, case["f"])), "C03.absf 1970 1 1 0 0 0 0"]
+
+    @staticmethod
+    def dfa(reply):
+        """decode a `readf`-style reply"""
+        if reply.startswith("err:"):
+            return {"err": reply}
+        p = reply.split()
+        return {"f": list(map(int, p[:7])), "abs": p[7]}
 
     def decode(self, case, replies):
         k = case["kind"]
         if k == "day":
-            return {"abs_ms": int(replies[0]), "back": list(map(int, replies[1].split()))}
+            rt = replies[2].split()
+            return {"abs_ms": int(replies[0]), "back": list(map(int, replies[1].split())),
+                    "abs": rt[0], "backf": list(map(int, rt[1:8])), "back_abs": rt[8]}
         if k == "secs":
             rows = []
             for i, r in enumerate(replies):
                 rows.append(list(map(int, r.split())) + [(case["start"] + i) * 1000])
             return {"rows": rows}
+        if k == "seq":
+            return {"rows": [{"abs": r.split()[0], "back": self.dfa(r.split(None, 1)[1])} for r in replies]}
         if k == "cmp":
-            return {"ops": list(map(int, replies[0].split()))}
+            return {"ops": list(map(int, replies[0].split())), "sub": replies[1]}
         if k == "add":
-            return {"res": list(map(int, replies[0].split()))}
+            r = self.dfa(replies[1])
+            return {"res": list(map(int, replies[0].split())), "resf": r["f"], "abs": r["abs"]}
+        if k == "rdf":
+            return {"rows": [self.dfa(r) for r in replies]}
+        if k == "cmpf":
+            p = replies[2].split()
+            return {"a": self.dfa(replies[0]), "b": self.dfa(replies[1]), "ops": list(map(int, p[:6])), "sub": p[6]}
+        if k == "addf":
+            return {"res": self.dfa(replies[0]), "self": case["a"]}
+        if k == "ctor":
+            p = replies[0].split()
+            back = list(map(int, p[1].split(",")))
+            d = list(map(int, replies[1].split()))
+            return {"str": unhexs(p[0]), "ctor": {"f": back, "abs": replies[2]}, "read": back,
+                    "default": {"f": d, "abs": replies[3]}, "copy": case["f"], "copy_eq": [1, 0, 0], "orig_after": case["f"]}
 
     def compare(self, case, impl_out, model_out):
-        if case["kind"] == "day" and "err" not in impl_out:
-            # the model addresses `read` by the oracle's instant: first make sure the model's own abs agrees
+        k = case["kind"]
+        if "err" in impl_out:
+            return Prop.compare(self, case, impl_out, model_out)
+        if k == "day":
+            # the integer model addresses `read` by the oracle's instant: first make sure the model's own abs agrees
             if model_out["abs_ms"] != oracle_ms(case["f"]):
                 return "model abs %s differs from the calendar oracle %s" % (model_out["abs_ms"], oracle_ms(case["f"]))
             if impl_out["abs_ms"] != model_out["abs_ms"]:
@@ -229,16 +528,50 @@ class P(Prop):
             bi, bm = impl_out["back"], model_out["back"]
             if bi[:6] != bm[:6] or not (bi[6] == bm[6] or (case["f"][6] != 0 and bi[6] == bm[6] - 1)):
                 # the float code may truncate a non-zero millisecond one low: not exhibited by the integer model
-                return "back: impl=%s model=%s" % (bi, bm)
+                return "back: impl=%s integer model=%s" % (bi, bm)
+            # the Float instance of the generic model is exact
+            if (impl_out["abs"], bi, impl_out["back_abs"]) != (model_out["abs"], model_out["backf"], model_out["back_abs"]):
+                return "float path: impl=%s model=%s" % ((impl_out["abs"], bi, impl_out["back_abs"]),
+                                                         (model_out["abs"], model_out["backf"], model_out["back_abs"]))
             return None
-        if case["kind"] == "add" and "err" not in impl_out:
+        if k == "add":
             bi, bm = impl_out["res"], model_out["res"]
             if bi[:6] != bm[:6] or not (bi[6] == bm[6] or (case["a"][6] != 0 and bi[6] == bm[6] - 1)):
-                return "add: impl=%s model=%s" % (bi, bm)
+                return "add: impl=%s integer model=%s" % (bi, bm)
+            if (bi, impl_out["abs"]) != (model_out["resf"], model_out["abs"]):
+                return "add, float path: impl=%s model=%s" % ((bi, impl_out["abs"]), (model_out["resf"], model_out["abs"]))
             return None
-        return Prop.compare(self, case, impl_out, model_out)
+        # every other stream is exact (integers and bit patterns)
+        if impl_out != model_out:
+            return "impl=%s model=%s" % (json_short(impl_out), json_short(model_out))
+        return None
 
     # ---------------------------------------------------------------- oracle (transfer)
+    @staticmethod
+    def check_abs(f, abs_bits, what):
+        """the seconds value of a well-formed stamp agrees with the proleptic Gregorian calendar (to the resolution of a double)"""
+        a = bitsf(abs_bits)
+        want = Fraction(oracle_ms(f), 1000)
+        if abs(Fraction(a) - want) > 2 * math.ulp(max(1.0, float(want))):
+            return "toAbsTime() of %s %s = %r, proleptic Gregorian calendar says %s" % (what, f, a, float(want))
+        return None
+
+    @staticmethod
+    def ops_of(a, b):
+        return [int(a < b), int(a > b), int(a == b), int(a <= b), int(a >= b), int(a != b)]
+
+    def check_read(self, x, row):
+        """readUnixTime(x) for a double x >= 0: well formed, same instant to within one millisecond, exact on whole seconds"""
+        f = row["f"]
+        if not wellformed(f):
+            return "readUnixTime(%r) = %s is not a well-formed date" % (x, f)
+        got = Fraction(oracle_ms(f), 1000)
+        if abs(Fraction(x) - got) > MS:
+            return "readUnixTime(%r) = %s is %s s away from the instant" % (x, f, float(got - Fraction(x)))
+        if x == math.floor(x) and f != oracle_fields(int(x) * 1000):
+            return "readUnixTime(%r) = %s, calendar says %s" % (x, f, oracle_fields(int(x) * 1000))
+        return self.check_abs(f, row["abs"], "readUnixTime(%r) =" % x)
+
     def spec(self, case, out):
         if "err" in out:
             return "raised %s" % out["err"]
@@ -254,7 +587,7 @@ class P(Prop):
             diff = abs(oracle_ms(b) - want)
             if diff > 1 or (f[6] == 0 and b != f):
                 return "round trip of %s gives %s (off by %d ms)" % (f, b, diff)
-            return None
+            return self.check_abs(f, out["abs"], "") or self.check_abs(b, out["back_abs"], "the round trip")
         if k == "secs":
             for i, row in enumerate(out["rows"]):
                 s = case["start"] + i
@@ -265,11 +598,26 @@ class P(Prop):
                 if row[7] != s * 1000:
                     return "toAbsTime(readUnixTime(%d)) = %s ms" % (s, row[7])
             return None
+        if k == "seq":
+            for f, row in zip(case["fs"], out["rows"]):
+                m = self.check_abs(f, row["abs"], "")
+                if m:
+                    return m + " (after the conversions before it in %s)" % case["fs"]
+                b = row["back"]["f"]
+                if not wellformed(b):
+                    return "round trip of %s gives the malformed date %s" % (f, b)
+                diff = abs(oracle_ms(b) - oracle_ms(f))
+                if diff > 1 or (f[6] == 0 and b != f):
+                    return "round trip of %s gives %s (off by %d ms) after the conversions before it in %s" % (f, b, diff, case["fs"])
+            return None
         if k == "cmp":
             a, b = oracle_ms(case["a"]), oracle_ms(case["b"])
-            want = [int(a < b), int(a > b), int(a == b), int(a <= b), int(a >= b), int(a != b)]
+            want = self.ops_of(a, b)
             if out["ops"] != want:
                 return "comparisons [<,>,==,<=,>=,!=] of %s and %s give %s, epoch order says %s" % (case["a"], case["b"], out["ops"], want)
+            d = bitsf(out["sub"])
+            if abs(Fraction(d) - Fraction(a - b, 1000)) > 4 * math.ulp(max(a, b, 1000) / 1000.0) or self.ops_of(d, 0)[:3] != want[:3]:
+                return "%s - %s = %r, the seconds differ by %s" % (case["a"], case["b"], d, (a - b) / 1000.0)
             return None
         if k == "add":
             want = oracle_fields(oracle_ms(case["a"]) + case["nb"] * self.MULT[case["unit"]] * 1000)
@@ -279,25 +627,129 @@ class P(Prop):
             d = abs(oracle_ms(got) - oracle_ms(want))
             if d > 1 or (case["a"][6] == 0 and got != want):
                 return "add%s(%d) on %s gives %s, expected %s" % (case["unit"], case["nb"], case["a"], got, want)
+            return self.check_abs(got, out["abs"], "the result")
+        if k == "rdf":
+            for xb, row in zip(case["x"], out["rows"]):
+                x = bitsf(xb)
+                if x < 0:
+                    continue   # before 1970: outside the property (correspondence only)
+                m = self.check_read(x, row)
+                if m:
+                    return m
+            return None
+        if k == "cmpf":
+            x, y = bitsf(case["x"]), bitsf(case["y"])
+            if x < 0 or y < 0:
+                return None
+            m = self.check_read(x, out["a"]) or self.check_read(y, out["b"])
+            if m:
+                return m
+            fa, fb = out["a"]["f"], out["b"]["f"]
+            a, b = oracle_ms(fa), oracle_ms(fb)
+            want = self.ops_of(a, b)
+            if out["ops"] != want:
+                return ("comparisons [<,>,==,<=,>=,!=] of readUnixTime(%r) = %s and readUnixTime(%r) = %s give %s, their seconds since 1970 say %s"
+                        % (x, fa, y, fb, out["ops"], want))
+            sa, sb = bitsf(out["a"]["abs"]), bitsf(out["b"]["abs"])
+            if out["ops"] != self.ops_of(sa, sb):
+                return ("comparisons [<,>,==,<=,>=,!=] of %s and %s give %s, their toAbsTime() values %r, %r say %s"
+                        % (fa, fb, out["ops"], sa, sb, self.ops_of(sa, sb)))
+            d = bitsf(out["sub"])
+            if abs(Fraction(d) - Fraction(a - b, 1000)) > 4 * math.ulp(max(a, b, 1000) / 1000.0) or self.ops_of(d, 0)[:3] != want[:3]:
+                return "%s - %s = %r, the seconds differ by %s" % (fa, fb, d, (a - b) / 1000.0)
+            return None
+        if k == "addf":
+            nb = self.amount(case)
+            mult = self.MULT[case["unit"]]
+            start = Fraction(oracle_ms(case["a"]), 1000)
+            want = start + Fraction(nb) * mult
+            if want < 0:
+                return None   # leads before 1970: outside the property (correspondence only)
+            got = out["res"]["f"]
+            what = "add%s(%r) on %s" % (case["unit"].capitalize(), nb, case["a"])
+            if not wellformed(got):
+                return "%s gives the malformed date %s" % (what, got)
+            g = Fraction(oracle_ms(got), 1000)
+            # one millisecond, plus the resolution of the doubles toAbsTime(), nb*unit and their sum
+            tol = MS + 3 * Fraction(math.ulp(max(1.0, float(start), float(want))))
+            if abs(g - want) > tol:
+                return "%s gives %s: moved by %s s instead of %s s" % (what, got, float(g - start), float(want - start))
+            if case["a"][6] == 0 and nb == math.floor(nb) and got != oracle_fields(int(want * 1000)):
+                return "%s gives %s, expected %s" % (what, got, oracle_fields(int(want * 1000)))
+            return self.check_abs(got, out["res"]["abs"], "the result")
+        if k == "ctor":
+            # The property speaks about conversions and comparisons, not about parsing, defaults or aliasing: what
+            # ObsTime(str)/readTimestamp parse, what ObsTime() is and that copy() is a distinct object are checked
+            # against the model (correspondence). The oracle only asks what the statement asks of the stamps built
+            # this way: their seconds agree with the calendar, and the copy compares as its seconds do.
+            for name, o in (("ObsTime(%r)" % out["str"], out["ctor"]), ("ObsTime()", out["default"])):
+                if wellformed(o["f"]):
+                    m = self.check_abs(o["f"], o["abs"], name + " =")
+                    if m:
+                        return m
+            f, c = case["f"], out["copy"]
+            if wellformed(c):
+                same = oracle_ms(c) == oracle_ms(f)
+                if out["copy_eq"][:2] != [int(same), int(not same)]:
+                    return "t = %s, t.copy() = %s: [==, !=] give %s although their seconds since 1970 are %s" % (
+                        f, c, out["copy_eq"][:2], "equal" if same else "different")
             return None
 
     # ---------------------------------------------------------------- shrinking / search
     def shrink(self, case):
-        if case["kind"] == "secs" and case["n"] > 1:
+        k = case["kind"]
+        if k == "secs" and case["n"] > 1:
             h = case["n"] // 2
             yield {"kind": "secs", "start": case["start"], "n": h}
             yield {"kind": "secs", "start": case["start"] + h, "n": case["n"] - h}
-        if case["kind"] == "day":
+        if k == "seq" and len(case["fs"]) > 1:
+            for i in range(len(case["fs"])):
+                yield {"kind": "seq", "fs": case["fs"][:i] + case["fs"][i + 1:]}
+        if k == "rdf" and len(case["x"]) > 1:
+            h = len(case["x"]) // 2
+            yield dict(case, x=case["x"][:h])
+            yield dict(case, x=case["x"][h:])
+        if k == "cmpf":
+            yield {"kind": "rdf", "cls": "from_cmpf", "x": [case["x"]]}
+            yield {"kind": "rdf", "cls": "from_cmpf", "x": [case["y"]]}
+        if k == "day":
             f = case["f"]
             for i, v in ((6, 0), (5, 0), (4, 0), (3, 0)):
                 if f[i] != v:
                     g = list(f); g[i] = v
                     yield {"kind": "day", "f": g}
-        if case["kind"] == "add" and case["nb"] > 0:
+        if k == "add" and case["nb"] > 0:
             yield dict(case, nb=case["nb"] // 2)
             yield dict(case, nb=case["nb"] - 1)
+        if k == "addf":
+            a = case["a"]
+            for i, v in ((6, 0), (5, 0), (4, 0), (3, 0)):
+                if a[i] != v:
+                    g = list(a); g[i] = v
+                    yield dict(case, a=g)
+            if case["unit"] != "sec":
+                yield dict(case, unit="sec")
 
     def mutate(self, case, rng):
-        if case["kind"] == "secs":
+        k = case["kind"]
+        if k == "secs":
             for d in (-86400, 86400, -1, 1):
                 yield {"kind": "secs", "start": max(0, case["start"] + d), "n": case["n"]}
+        if k == "rdf":
+            for xb in case["x"][:5]:
+                x = bitsf(xb)
+                for y in (math.nextafter(x, 0.0), math.nextafter(x, math.inf), x + 0.0005, math.floor(x) + 0.9996, float(math.floor(x))):
+                    if y >= 0:
+                        yield {"kind": "rdf", "cls": "mutant", "x": [fbits(y)]}
+                        yield {"kind": "cmpf", "x": xb, "y": fbits(y)}
+        if k == "cmpf":
+            yield {"kind": "rdf", "cls": "mutant", "x": [case["x"], case["y"]]}
+        if k == "addf":
+            nb = bitsf(case["nb"])
+            for d in (0.0005, -0.0005, 0.9996):
+                yield dict(case, nb=fbits(nb + d), int=False)
+
+
+def json_short(o):
+    import json
+    return json.dumps(o)[:400]
